@@ -278,6 +278,8 @@ struct C02Space {
     template: usize,
     max_depth: u8,
     contexts: Vec<usize>,
+    /// Only replacements and character-level tag edits (no insertions/deletions).
+    replacements_only: bool,
 }
 
 fn c02_edits(files: &[LFile]) -> Vec<Edit> {
@@ -307,6 +309,7 @@ impl Space for C02Space {
         }
         c02_edits(&s.files)
             .into_iter()
+            .filter(|e| !self.replacements_only || matches!(e, Edit::Rep { .. } | Edit::TagChar { .. }))
             .map(|e| {
                 let files = difflab::apply(&s.files, &e, s.depth as usize + 1);
                 let mut history = s.history.clone();
@@ -335,7 +338,19 @@ pub fn run(cfg: &Cfg, sink: &Arc<Sink>) -> Report {
         report.phase(engine::explore(
             name,
             &format!("all edit histories of length ≤{depth} × -U{contexts:?} × {{no path argument, **, first file}}"),
-            C02Space { template: ti, max_depth: depth, contexts: contexts.clone() },
+            C02Space { template: ti, max_depth: depth, contexts: contexts.clone(), replacements_only: false },
+            sink,
+            cfg.threads,
+            false,
+        ));
+    }
+    // One level deeper over replacements and tag edits only (≥3 changed lines per file).
+    for ti in [1usize, 4] {
+        let name = templates()[ti].name;
+        report.phase(engine::explore(
+            &format!("{name}, replacements and tag edits only"),
+            &format!("all histories of ≤{} replacements / character-level tag edits × -U[0] × {{no path argument, **, first file}}", depth + 1),
+            C02Space { template: ti, max_depth: depth + 1, contexts: vec![0], replacements_only: true },
             sink,
             cfg.threads,
             false,
